@@ -136,6 +136,8 @@ void h_frame_coder(void)
       int dtx_packet = (ret == 1);
       CANARY("packet produced");
       __CPROVER_assert(st->stream_channels == old.stream_channels && st->mode == old.mode, "the decided channel count and mode are what is coded");
+      /* the one exit that leaves st->first alone is the speech layer's own DTX (zero bytes from silk_Encode), which cannot be the first frame of a stream */
+      if (!g_silk_nbytes0) __CPROVER_assert(st->first == 0, "a coded frame ends the before-the-first-frame state (st->first cleared: the effect C11_encode_native.c assumes of its frame coder stub; from then on OPUS_SET_APPLICATION is refused)");
       __CPROVER_assert(RFC_DUR400(data[0]) * (VERIF_FS / 400) == frame_size, "the TOC byte announces exactly the coded duration");
       __CPROVER_assert(((data[0] >> 2) & 1) == (old.stream_channels == 2), "the TOC byte carries the decided channel count");
       __CPROVER_assert((data[0] & 3) == 0, "the frame coder emits a single-frame (code 0) packet");
